@@ -427,13 +427,15 @@ public:
         const long long id = idOfLine(m.file(), m.line());
         const long long t = ticket();
         long long waited = 0;
-        if (id >= 0 && (id % 13) == 0) {
+        static std::atomic<bool> gateBroken { false }; // one timed-out gate is evidence enough: do not wait 20 s for every later one
+        if (id >= 0 && (id % 13) == 0 && !gateBroken.load()) {
             // gated delivery: only the producing thread opens the gate, after its log call has returned.  If the call needed this
             // sink to finish first, this is a deadlock; the wait is bounded so that the run can report it.
             auto begin = std::chrono::steady_clock::now();
             while (!(*g_returned)[slotOf(id)].load()) {
                 if (std::chrono::steady_clock::now() - begin > std::chrono::seconds(20)) {
                     waited = -1;
+                    gateBroken = true;
                     break;
                 }
                 sched_yield();
